@@ -337,3 +337,17 @@ mod tests {
         },
     );
 }
+
+/// Verification hooks (feature `pasfmt_verif`): forwarding wrappers.
+#[cfg(feature = "pasfmt_verif")]
+pub mod verif_hooks_comments {
+    use super::*;
+
+    pub fn format_line_comment(tok: &mut Token) {
+        super::format_line_comment(tok)
+    }
+
+    pub fn format_compiler_directive(tok: &mut Token) {
+        super::format_compiler_directive(tok)
+    }
+}
